@@ -14,6 +14,7 @@ DOC = {
                    'paths with equal (device, inode) (R4); the transformed stream is hashed without a bound derived from the raw file length (R5); a length changed by the hash function '
                    'reaches every path of the inode (R6); file_hash honours chunk.pos/chunk.len and the read loop stops only at the bound, at EOF or on error (R7).',
     'rules': {
+        'C01.M': __import__('fcverif.rules.common', fromlist=['MANDATORY_TEXT']).MANDATORY_TEXT,
         'C01.R1': 'stage cover: prefix stage hashes (0, P) when len REL1 P; contents stage hashes (0, len) when len REL2 M; {REL1}+{REL2} cover all lengths and P, M are the same value; contents bypassed only under skip_content_hash',
         'C01.R2': 'rehash: GroupMap key = (file_info.len, file_hash)',
         'C01.R3': 'group_by_suffix: result = old_hash ^ new_hash (BitXor), never the new hash alone',
@@ -36,6 +37,8 @@ def run(ctx):
     r5(ctx)
     r6(ctx, 'C01.R6')
     r7(ctx)
+    from .common import run_mandatory
+    run_mandatory(ctx, 'C01')
 
 
 def hash_closure_of(lib, stage):
